@@ -25,7 +25,7 @@ ASSUMPTIONS = ["gateway models transmit accepted frames in the order they were h
                "send() of a device-type command is exercised and recorded, not judged"]
 EXHAUSTIVE = {"quick": False, "thorough": False}
 REQUIRED_ANCHORS = {"all": ["runs", "interleavings_seen", "units_checked", "dt_adjacency_checked", "cancelled_callers",
-                            "raising_sequences", "lock_checked", "drivers_tridonic", "drivers_hasseb", "drivers_luba", "drivers_sci"]}
+                            "raising_sequences", "lock_checked", "loss_runs", "drivers_tridonic", "drivers_hasseb", "drivers_luba", "drivers_sci"]}
 SHARD_TIMEOUT = {"quick": 600, "thorough": 3000}
 
 
@@ -42,7 +42,8 @@ class Boom(Exception):
 def make_caller(r, driver, c):
     """Describe caller c: kind and the list of items its unit(s) consist of."""
     kinds = simlib.KINDS[driver]
-    kind = r.choice(["send", "send", "seq", "seq", "seq", "seq-raise", "seq-cancel", "send-cancel", "manual"])
+    kind = r.choice(["send", "send", "seq", "seq", "seq", "seq-raise", "seq-cancel", "send-cancel", "manual",
+                     "seq-cancel", "send-cancel", "seq-badclean"])
     if kind == "manual" and driver in ("tridonic", "hasseb"):
         kind = "seq"
     n = 1 if kind.startswith("send") else (1 if kind == "manual" else r.randint(2, 5))
@@ -57,9 +58,15 @@ def make_caller(r, driver, c):
         if kind.startswith("seq") and r.random() < 0.2:
             items.append(("progress", None))
     raise_at = r.randrange(len(items) + 1) if kind == "seq-raise" else None
-    cancel_at = r.randint(1, 14) if kind.endswith("cancel") else None
-    return {"kind": kind, "items": items, "raise_at": raise_at, "cancel_at": cancel_at, "start": r.choice([0, 0, 0.001, 0.01, 0.04, 0.1]),
-            "repeat": r.choice([1, 1, 2]) if kind == "send" else 1}
+    cancel_at = cancel_time = None
+    if kind.endswith("cancel") or kind == "seq-badclean":
+        if r.random() < 0.5 and kind != "seq-badclean":
+            cancel_at = r.randint(1, 14)                 # at the start of its k-th task step (just after a wake-up)
+        else:
+            cancel_time = r.choice([0.002, 0.008, 0.02, 0.03, 0.05, 0.08, 0.12, 0.2])    # while suspended, at a virtual instant
+    badclean = r.choice(["raise", "yield"]) if kind == "seq-badclean" else None
+    return {"kind": kind, "items": items, "raise_at": raise_at, "cancel_at": cancel_at, "cancel_time": cancel_time, "badclean": badclean,
+            "start": r.choice([0, 0, 0.001, 0.01, 0.04, 0.1]), "repeat": r.choice([1, 1, 2]) if kind == "send" else 1}
 
 
 def run_case(driver, seed, part, i, res):
@@ -67,13 +74,24 @@ def run_case(driver, seed, part, i, res):
     r = rng(seed, "C15", driver, part, i)
     n_callers = r.choice([2, 2, 3, 4])
     callers = [make_caller(r, driver, c) for c in range(n_callers)]
+    # HID only: the device vanishes for a moment while callers (exceptions off) are retried transparently
+    loss = driver in ("tridonic", "hasseb") and r.random() < 0.3
+    if loss:
+        for spec in callers:
+            spec["cancel_at"] = spec["cancel_time"] = spec["badclean"] = None
+            if spec["kind"] in ("seq-cancel", "seq-badclean"):
+                spec["kind"] = "seq"
+            elif spec["kind"] == "send-cancel":
+                spec["kind"] = "send"
+        t_loss = r.choice([0.003, 0.01, 0.02, 0.03, 0.045, 0.06, 0.08, 0.1, 0.15])
     picker = simlib.Picker(r)
-    sim = simlib.Sim(driver, picker)
+    sim = simlib.Sim(driver, picker, hid_kwargs={"reconnect_interval": 0.5} if loss else None)
     outcome = {}
     gens = {}
 
     def gen_for(c, spec):
         def g():
+          try:
             for idx, (what, x) in enumerate(spec["items"]):
                 if spec["raise_at"] == idx:
                     raise Boom(c)
@@ -86,6 +104,11 @@ def run_case(driver, seed, part, i, res):
             if spec["raise_at"] == len(spec["items"]):
                 raise Boom(c)
             return ("done", c)
+          finally:
+            if spec.get("badclean") == "raise":
+                raise KeyError("cleanup of the sequence failed")
+            if spec.get("badclean") == "yield":
+                yield sequences.progress(message="cleanup that ignores GeneratorExit")
         return g()
 
     async def body(c, spec):
@@ -107,11 +130,23 @@ def run_case(driver, seed, part, i, res):
 
     async def main(sim):
         await sim.connect()
+        if loss:
+            sim.driver.exceptions_on_send = False
+            sim.world.at(sim.world.now + t_loss, lambda: sim.dev.lose(r.choice(["eof", "oserror"])))
+            sim.world.at(sim.world.now + t_loss + 0.3, sim.dev.restore)
         tasks = []
         for c, spec in enumerate(callers):
             t = vloop.CountingTask(body(c, spec), loop=asyncio.get_running_loop(), cancel_at=spec["cancel_at"])
+            if spec["cancel_time"] is not None:
+                asyncio.get_running_loop().call_at(sim.world.now + spec["cancel_time"], t.cancel)
             tasks.append(t)
-        done = await asyncio.gather(*tasks, return_exceptions=True)
+        if loss:
+            try:
+                done = await asyncio.wait_for(asyncio.gather(*tasks, return_exceptions=True), 30.0)
+            except asyncio.TimeoutError:
+                return "callers-not-finished-after-reconnect"
+        else:
+            done = await asyncio.gather(*tasks, return_exceptions=True)
         for c, x in enumerate(done):
             outcome[c] = x
         await asyncio.sleep(1.5)      # let the gateway finish what it has accepted
@@ -128,8 +163,8 @@ def run_case(driver, seed, part, i, res):
         res.hit("interleavings_seen")
     wit = {"driver": driver, "seed": seed, "part": part, "case": i,
            "callers": [{"kind": s["kind"], "items": [str(x) if w == "cmd" else (w, x) for w, x in s["items"]], "raise_at": s["raise_at"],
-                        "cancel_at": s["cancel_at"], "start": s["start"]} for s in callers],
-           "wire": [(hex(w["value"]), t) for w, t in zip(wire, tags)][:60], "picks": picker.log[:50]}
+                        "cancel_at": s["cancel_at"], "cancel_time": s["cancel_time"], "badclean": s["badclean"], "start": s["start"]} for s in callers],
+           "wire": [(hex(w["value"]), t) for w, t in zip(wire, tags)][:60], "picks": picker.log[:50], "loss": (t_loss if loss else None)}
     try:
         if stalled:
             res.violation(f"C15/{driver}/caller-never-completes", "the simulation stalled: some caller is blocked for ever "
@@ -138,8 +173,10 @@ def run_case(driver, seed, part, i, res):
         if out is not True:
             res.violation(f"C15/{driver}/crash", f"simulation ended with {out!r}", wit)
             return
-        # ---- expected per-caller streams and units
-        for c, spec in enumerate(callers):
+        if loss:
+            res.hit("loss_runs")
+        # ---- expected per-caller streams and units (not under loss: retries legitimately repeat frames)
+        for c, spec in enumerate(callers if not loss else []):
             in_seq = spec["kind"].startswith("seq") or spec["kind"] == "manual"
             units = []
             if spec["kind"].startswith("send"):
@@ -159,7 +196,8 @@ def run_case(driver, seed, part, i, res):
             expected = [f for u in units for f in u]
             mine = [(w["width"], w["value"]) for w, t in zip(wire, tags) if t == c]
             completed = not isinstance(outcome.get(c), BaseException)
-            abnormal = spec["cancel_at"] is not None or spec["raise_at"] is not None
+            cancelled = spec["cancel_at"] is not None or spec["cancel_time"] is not None
+            abnormal = cancelled or spec["raise_at"] is not None or spec["badclean"] is not None
             res.hit("units_checked", len(units))
             if completed or spec["raise_at"] is not None:
                 ok = mine == expected
@@ -183,15 +221,15 @@ def run_case(driver, seed, part, i, res):
                                   {**wit, "caller": c})
                     break
             # outcome of the caller
-            if spec["raise_at"] is not None and spec["cancel_at"] is None:
+            if spec["raise_at"] is not None and not cancelled and spec["badclean"] is None:
                 res.hit("raising_sequences")
                 if not isinstance(outcome.get(c), Boom):
                     res.violation(f"C15/{driver}/sequence-exception-lost", f"the sequence raised Boom but the caller got {outcome.get(c)!r}", {**wit, "caller": c})
-            if spec["cancel_at"] is not None:
+            if cancelled:
                 res.hit("cancelled_callers")
             if completed and not abnormal and spec["kind"].startswith("seq") and outcome.get(c) != ("done", c):
                 res.violation(f"C15/{driver}/sequence-result-lost", f"run_sequence returned {outcome.get(c)!r}", {**wit, "caller": c})
-            if c in gens and inspect.getgeneratorstate(gens[c]) not in ("GEN_CLOSED", "GEN_CREATED"):
+            if c in gens and spec["badclean"] != "yield" and inspect.getgeneratorstate(gens[c]) not in ("GEN_CLOSED", "GEN_CREATED"):
                 res.violation(f"C15/{driver}/generator-not-closed/{spec['kind']}", f"the sequence generator of caller {c} is left "
                               f"{inspect.getgeneratorstate(gens[c])}", {**wit, "caller": c})
         # ---- device-type adjacency over the whole wire (where the library owes the prefix)
@@ -201,7 +239,7 @@ def run_case(driver, seed, part, i, res):
             for what, x in spec["items"]:
                 if what == "cmd" and len(x.frame) == 16 and x.devicetype != 0:
                     if driver in ("tridonic", "hasseb") or in_seq:
-                        owes[(16, x.frame.as_integer)] = x.devicetype
+                        owes[(16, x.frame.as_integer)] = (x.devicetype, bool(x.sendtwice))
                     else:
                         res.observe("serial-bare-send-of-device-type-command-has-no-prefix", str(x))
         prev_own = None
@@ -209,12 +247,20 @@ def run_case(driver, seed, part, i, res):
             key = (w["width"], w["value"])
             if key in owes:
                 res.hit("dt_adjacency_checked")
+                dtv, tw = owes[key]
                 prevw = wire[k - 1] if k else None
-                if prevw is not None and (prevw["width"], prevw["value"]) == key:
-                    prevw = wire[k - 2] if k >= 2 else None        # second transmission of a send-twice command
-                if prevw is None or (prevw["width"], prevw["value"]) != (16, 0xC100 + owes[key]):
+                if tw:
+                    # the gateway repeats a send-twice frame itself: the second of each pair follows the first
+                    run = 0
+                    j = k - 1
+                    while j >= 0 and (wire[j]["width"], wire[j]["value"]) == key:
+                        run += 1
+                        j -= 1
+                    if run % 2 == 1:
+                        continue
+                if prevw is None or (prevw["width"], prevw["value"]) != (16, 0xC100 + dtv):
                     res.violation(f"C15/{driver}/device-type-prefix-not-adjacent",
-                                  f"frame {w['value']:#06x} needs device type {owes[key]} but is preceded on the wire by "
+                                  f"frame {w['value']:#06x} needs device type {dtv} but is preceded on the wire by "
                                   f"{hex(prevw['value']) if prevw else None}", {**wit, "position": k})
                     break
         # ---- end state
@@ -226,7 +272,9 @@ def run_case(driver, seed, part, i, res):
         for c, x in outcome.items():
             if isinstance(x, BaseException) and not isinstance(x, (Boom, asyncio.CancelledError)):
                 key = type(x).__name__
-                if callers[c]["cancel_at"] is None:
+                if loss and key == "CommunicationError" and callers[c]["kind"].startswith("seq"):
+                    continue
+                if callers[c]["cancel_at"] is None and callers[c]["cancel_time"] is None and callers[c]["badclean"] is None:
                     res.violation(f"C15/{driver}/caller-raised/{key}", f"caller {c} ({callers[c]['kind']}) raised {key}: {x}", {**wit, "caller": c, "tb": short_tb(x)})
         if i == 0:
             res.sample({k: wit[k] for k in ("driver", "callers", "wire")})
